@@ -82,20 +82,48 @@ type VFirst struct {
 	Mark      int64
 }
 
+// VZero marks live rows with a fixed timestamp instead of NULL (zeroValue tag)
+type VZero struct {
+	ID        int64 `gorm:"primaryKey"`
+	A         int64
+	B         *int64
+	S         string
+	T         *string
+	Mark      int64
+	DeletedAt gorm.DeletedAt `gorm:"zeroValue:1970-01-01 00:00:01;default:1970-01-01 00:00:01"`
+}
+
 type variant struct {
 	name  string
 	table string
 	col   string
 	typ   reflect.Type
+	// live: what the soft-delete column of a live row holds (SQL literal; empty = NULL)
+	live string
+}
+
+func (v variant) liveLit() string {
+	if v.live == "" {
+		return "NULL"
+	}
+	return "'" + v.live + "'"
+}
+
+func (v variant) liveCond() string {
+	if v.live == "" {
+		return "$C IS NULL"
+	}
+	return "$C = '" + v.live + "'"
 }
 
 var variants = []variant{
-	{"pointer field *gorm.DeletedAt", "v_ptrs", "deleted_at", reflect.TypeOf(VPtr{})},
-	{"anonymous embedded struct", "v_embs", "deleted_at", reflect.TypeOf(VEmb{})},
-	{"anonymous embedded pointer struct", "v_emb_ptrs", "deleted_at", reflect.TypeOf(VEmbPtr{})},
-	{"embedded by tag with prefix", "v_emb_tags", "au_deleted_at", reflect.TypeOf(VEmbTag{})},
-	{"renamed column", "v_cols", "removed_at", reflect.TypeOf(VCol{})},
-	{"soft-delete column first", "v_firsts", "deleted_at", reflect.TypeOf(VFirst{})},
+	{"pointer field *gorm.DeletedAt", "v_ptrs", "deleted_at", reflect.TypeOf(VPtr{}), ""},
+	{"anonymous embedded struct", "v_embs", "deleted_at", reflect.TypeOf(VEmb{}), ""},
+	{"anonymous embedded pointer struct", "v_emb_ptrs", "deleted_at", reflect.TypeOf(VEmbPtr{}), ""},
+	{"embedded by tag with prefix", "v_emb_tags", "au_deleted_at", reflect.TypeOf(VEmbTag{}), ""},
+	{"renamed column", "v_cols", "removed_at", reflect.TypeOf(VCol{}), ""},
+	{"soft-delete column first", "v_firsts", "deleted_at", reflect.TypeOf(VFirst{}), ""},
+	{"live rows marked by a zero value (zeroValue tag)", "v_zeros", "deleted_at", reflect.TypeOf(VZero{}), "1970-01-01 00:00:01"},
 }
 
 func migrateVariants(db *gorm.DB) {
@@ -117,7 +145,7 @@ func (v variant) load(rows []pred.Row) {
 		if r.T != nil {
 			t = *r.T
 		}
-		_, err = H.SQL.Exec("INSERT INTO "+v.table+"(id,a,b,s,t,mark,"+v.col+") VALUES (?,?,?,?,?,0,NULL),(?,?,?,?,?,0,?)",
+		_, err = H.SQL.Exec("INSERT INTO "+v.table+"(id,a,b,s,t,mark,"+v.col+") VALUES (?,?,?,?,?,0,"+v.liveLit()+"),(?,?,?,?,?,0,?)",
 			r.ID, r.A, b, r.S, t, r.ID+twinOff, r.A, b, r.S, t, delTime)
 		must(err)
 	}
@@ -212,7 +240,7 @@ func runVariant(c *core.Ctx, st pred.Style, table []pred.Row) {
 		if cnt := v.ints("SELECT count(*) FROM $T")[0]; cnt != total {
 			add("Delete removed rows physically: %d rows left of %d", cnt, total)
 		}
-		live := v.ints("SELECT id FROM $T WHERE $C IS NULL ORDER BY id")
+		live := v.ints("SELECT id FROM $T WHERE " + v.liveCond() + " ORDER BY id")
 		var wantLive []int64
 		sel := map[int64]bool{}
 		for _, id := range want {
